@@ -577,6 +577,33 @@ func checkNumberScanner(p *Prog, l *Ledger, shapeRule, valueRule string) {
 	} else if nCons < 3 {
 		l.Violate(shapeRule+"/vacuity", "number", "", fmt.Sprintf("only %d consumption sites in number()", nCons))
 	}
+	// the longest piece: where the literal ends the next rune is not a digit of either script (a run of digits is one
+	// literal whatever mixture of ASCII and Bangla digits it is written in)
+	nTok, cut := 0, ""
+	var cutEv *Event
+	for _, e := range m.G.Events("token") {
+		if e.Args[0] != fmt.Sprint(numTok) {
+			continue
+		}
+		nTok++
+		if e.KV["at-end"] == "T" {
+			continue
+		}
+		for _, d := range []string{"'0'", "'9'", "'৫'"} {
+			if strings.Contains(e.KV["after-may"], d) {
+				if !strings.Contains(cut, d) {
+					cut += d
+				}
+				cutEv = e
+			}
+		}
+	}
+	switch {
+	case cut != "":
+		l.Violate(shapeRule, "number#longest", cutEv.Pos, "the NUMBER token is produced although the rune after it may still be a digit ("+cut+"): a digit run that mixes the two scripts is cut into several literals")
+	case nTok > 0:
+		l.Discharge(shapeRule, "number#longest", p.Pos(fn.Pos()), "where the literal ends the input has ended or the next rune is known not to be a digit of either script", true)
+	}
 	// value
 	wantLit := "ParseFloat(ConvertBanglaDigitsToASCII(conv:string(s.source[s.start:s.current])),64)#0"
 	mon := Monitor{Init: "scan|", Step: func(s string, ev *Event) string {
